@@ -11,6 +11,7 @@ from ._core import WebSocket, getdefaulttimeout
 from ._exceptions import (
     WebSocketConnectionClosedException,
     WebSocketException,
+    WebSocketPayloadException,
     WebSocketTimeoutException,
 )
 from ._ssl_compat import SSLEOFError
@@ -446,7 +447,12 @@ class WebSocketApp:
             else:
                 data = frame.data
                 if op_code == ABNF.OPCODE_TEXT and not skip_utf8_validation:
-                    data = data.decode("utf-8")
+                    try:
+                        data = data.decode("utf-8")
+                    except UnicodeDecodeError:
+                        raise WebSocketPayloadException(
+                            f"cannot decode: {repr(data)}"
+                        )
                 self._callback(self.on_data, data, op_code, True)
                 self._callback(self.on_message, data)
 
